@@ -190,7 +190,8 @@ def main():
             ev['coverage']['self_validation'] = selftest
         ev['coverage'].update(extra_info)
         os.makedirs(os.path.join(VERIF, 'evidence'), exist_ok=True)
-        json.dump(ev, open(os.path.join(VERIF, 'evidence', pid + '.json'), 'w'), indent=1)
+        if '--explain' not in args:   # a replay of one rule instance must not replace the evidence of the full check
+            json.dump(ev, open(os.path.join(VERIF, 'evidence', pid + '.json'), 'w'), indent=1)
         nviol = len(violations)
         print('%s: %s — %d rule instances over %d rules (%d path/flow queries), %d violation(s), %d known finding(s), %.1fs' % (
             pid, 'HOLDS on everything analysed' if nviol == 0 else 'VIOLATED', len(inst), len(rule_ids), distinct_nontrivial, nviol, len(known_hits), time.time() - t0))
